@@ -8,6 +8,7 @@
 //             b  binary overload sets x every argument pair
 //             c  C++-receives direction: boxed_cast<T>(value) for every (argument kind, requested form)
 //             a  wrong number of arguments
+//             t  user type_conversion<From, To>: forms of a To parameter x arguments x conversion registered or not
 #include "vh_common.hpp"
 
 using namespace vh;
@@ -24,6 +25,14 @@ namespace {
   struct Plain {
     int value = 77;
     int pad[6] = {0, 0, 0, 0, 0, 0};
+  };
+
+  /// user conversion (type_conversion<From, To>): a To parameter is reached from a From only where the conversion is registered
+  struct From {
+    int v = 41;
+  };
+  struct To {
+    int v = 7;
   };
 
   int g_entered = -1;
@@ -267,6 +276,50 @@ int main(int argc, char **argv) {
             oc = "ex";
           }
           std::fprintf(rows, "{\"k\":\"m\",\"member\":%s,\"arg\":%s,\"route\":%s,\"oc\":%s,\"got\":%s}\n", jstr(m).c_str(), jstr(a.first).c_str(), jstr(r).c_str(), jstr(oc).c_str(), jstr(got).c_str());
+        }
+      }
+    }
+  }
+  // user type conversions: every form of a To parameter (alone, beside a From overload, beside a catch-all) x arguments x conversion registered or not
+  {
+    const std::vector<std::pair<std::string, Proxy_Function>> tcat = {
+        {"To", fun([](To t) { enter(0, "To:" + num(t.v)); })},
+        {"cTo&", fun([](const To &t) { enter(1, "To:" + num(t.v)); })},
+        {"To&", fun([](To &t) { enter(2, "To:" + num(t.v)); })},
+        {"To*", fun([](To *t) { enter(3, "To:" + num(t->v)); })},
+        {"cTo*", fun([](const To *t) { enter(4, "To:" + num(t->v)); })},
+        {"spTo", fun([](std::shared_ptr<To> t) { enter(5, "To:" + num(t->v)); })},
+        {"spcTo", fun([](std::shared_ptr<const To> t) { enter(6, "To:" + num(t->v)); })},
+        {"From", fun([](From f) { enter(7, "From:" + num(f.v)); })},
+        {"BV", fun([](const Boxed_Value &v) { enter(8, "BV:" + std::string(v.get_type_info().bare_equal(user_type<From>()) ? "From" : v.get_type_info().bare_equal(user_type<To>()) ? "To" : "other")); })},
+    };
+    const std::vector<std::pair<std::string, std::string>> targs = {{"Fobj", "fobj2"}, {"cFobj", "cfobj"}, {"Fref", "fref"}, {"Tobj", "tobj"}, {"cTobj", "ctobj"}, {"ivar", "iv"}, {"svar", "sv"}};
+    for (int conv = 0; conv <= 1; ++conv) {
+      for (size_t i = 0; i < 7; ++i) {
+        for (size_t j : {tcat.size(), size_t{7}, size_t{8}}) {
+          for (int order = 0; order <= (j < tcat.size() ? 1 : 0); ++order) {
+            Fixture fx;
+            From reff;
+            auto &c = *fx.chai;
+            c.add(user_type<From>(), "From");
+            c.add(user_type<To>(), "To");
+            if (conv) { c.add(type_conversion<From, To>([](const From &f) { To t; t.v = f.v + 1; return t; })); }
+            c.add(var(From()), "fobj2");
+            c.add(const_var(From()), "cfobj");
+            c.add(var(std::ref(reff)), "fref");
+            c.add(var(To()), "tobj");
+            c.add(const_var(To()), "ctobj");
+            if (order == 0) { c.add(tcat[i].second, "ov"); }
+            if (j < tcat.size()) { c.add(tcat[j].second, "ov"); }
+            if (order == 1) { c.add(tcat[i].second, "ov"); }
+            for (const auto &a : targs) {
+              std::string oc;
+              call(c, "ov(" + a.second + ")", oc);
+              std::fprintf(rows, "{\"k\":\"t\",\"conv\":%d,\"first\":%s,\"second\":%s,\"order\":%d,\"arg\":%s,\"oc\":%s,\"entered\":%s,\"n\":%d,\"recv\":%s}\n", conv, jstr(tcat[i].first).c_str(),
+                           jstr(j < tcat.size() ? tcat[j].first : "").c_str(), order, jstr(a.first).c_str(), jstr(oc).c_str(),
+                           jstr(g_entered >= 0 ? tcat[static_cast<size_t>(g_entered)].first : "").c_str(), g_count, jstr(g_recv).c_str());
+            }
+          }
         }
       }
     }
